@@ -358,26 +358,17 @@ void *array::append(size_t len, const void *data)
 }
 void *array::insert(size_t off, size_t len, const void *data)
 {
-	void *dest = 0;
+	void *dest;
 	content *d;
 	
 	/* compatibility check */
-	if ((d = _buf.instance())
-	 && !d->content_traits()
-	 && !d->shared()) {
-		dest = d->insert(off, len);
+	if ((d = _buf.instance()) && d->content_traits()) {
+		return 0;
 	}
-	if (!dest) {
-		size_t total = off + len;
-		if (!(d = static_cast<content *>(buffer::create(total)))) {
-			return 0;
-		}
-		if (!(dest = d->insert(off, len))) {
-			d->unref();
-			return 0;
-		}
+	/* create, extend or detach buffer as needed */
+	if (!(dest = mpt_array_insert(this, off, len))) {
+		return 0;
 	}
-	dest = static_cast<uint8_t *>(dest) + off;
 	if (data) {
 		memcpy(dest, data, len);
 	} else {
